@@ -57,6 +57,17 @@ def run_plan(plan, seed, trace=False):
           "waits": [], "notifies": [], "errors": [], "events": []}
     lines = []
     idx_of = {}
+    # what the Event's flag is at the instant a thread leaves the Event's critical section for the last time in a call (the `with
+    # self._cond:` exit goes through SemLock.__exit__ -> self._semlock.release(), looked up on the instance): the flag can only
+    # change under that lock, so this is the state "when the call returns"
+    ev_unlocks = {}
+    _ev_sl = ev._cond._lock._semlock
+    _ev_release = _ev_sl.release
+
+    def _logged_release():
+        ev_unlocks[kern.current.name] = ev._flag._semlock.value > 0
+        return _ev_release()
+    _ev_sl.release = _logged_release
 
     def body(i, ops):
         for op in ops:
@@ -89,6 +100,9 @@ def run_plan(plan, seed, trace=False):
                     r = ev.wait(0.5 if op[1] else None)
                     # True iff the flag is set at return: the flag semaphore is only changed under the condition's lock
                     st["events"].append(("wait", bool(r), op[1]))
+                    at_return = ev_unlocks.get(f"t{i}")
+                    if at_return is not None and bool(r) != at_return:
+                        st["errors"].append(f"Event.wait() returned {bool(r)} although the event was {'set' if at_return else 'clear'} when it returned")
                     if not r and not op[1] and not any(o[0] == "eclear" for t in plan["threads"] for o in t):
                         st["errors"].append("Event.wait() without timeout returned False although nobody clears the event")
                 elif op[0] == "eset":
@@ -96,7 +110,10 @@ def run_plan(plan, seed, trace=False):
                 elif op[0] == "eclear":
                     ev.clear()
                 elif op[0] == "eisset":
-                    ev.is_set()
+                    r = ev.is_set()
+                    at_return = ev_unlocks.get(f"t{i}")
+                    if at_return is not None and bool(r) != at_return:
+                        st["errors"].append(f"Event.is_set() returned {bool(r)} although the event was {'set' if at_return else 'clear'}")
                 elif op[0] == "lock":
                     with lk:
                         st["in_lock"] += 1
